@@ -65,6 +65,24 @@ namespace
     return inf_file.good();
   }
 
+  // DFS file names (and directory characters) can contain any 7-bit
+  // character, including '/'.  The files we create must land directly
+  // inside the destination directory whatever the catalogue says, so
+  // the path separator cannot be used as-is in a host file name.
+  string host_file_name(const string& dfs_name)
+  {
+    string result;
+    result.reserve(dfs_name.size());
+    for (const char ch : dfs_name)
+      {
+	if (ch == '/')
+	  result.append("%2F");
+	else
+	  result.push_back(ch);
+      }
+    return result;
+  }
+
 class CommandExtractFiles : public DFS::CommandInterface
 {
 public:
@@ -141,7 +159,7 @@ public:
 	  {
 	    output_basename = string(1, entry.directory()) + "." + rtrim(entry.name());
 	  }
-	const string output_body_file = dest_dir + output_basename;
+	const string output_body_file = dest_dir + host_file_name(output_basename);
 
 	std::ofstream outfile(output_body_file, std::ofstream::out);
 	if (!outfile.good())
